@@ -2,6 +2,7 @@
   C10 — Requests go only to eligible ready peers; answers return to their sender.
 -/
 import DV.Proofs.NodeQ
+import DV.Proofs.GenSeq
 namespace DV.Node
 
 /-- Hop-by-hop / end-to-end identifiers drawn from a generator are never zero
@@ -13,6 +14,27 @@ theorem C10_id_nonzero (cur : Nat) (h : cur ≤ 0xffffffff) : 1 ≤ seqNext cur 
   · rename_i hne
     have : cur ≠ 0xffffffff := by simpa using hne
     omega
+
+/-- the node's per-connection counter is the generator of C16 with the 32-bit maximum -/
+theorem seqNext_eq_nextSeq (cur : Nat) : seqNext cur = DV.Gens.nextSeq 0xffffffff cur := rfl
+
+/-- the hop-by-hop id the `k`-th request routed over a connection leaves with, from the counter state `s` -/
+def nthId (s : Nat) : Nat → Nat
+  | 0 => s
+  | k + 1 => seqNext (nthId s k)
+
+theorem nthId_eq_iter (s k : Nat) : nthId s k = DV.Gens.iter 0xffffffff k s := by
+  induction k with
+  | zero => rfl
+  | succ k ih => simp [nthId, DV.Gens.iter, ih, seqNext_eq_nextSeq]
+
+/-- **Unique among the requests outstanding on the connection**: the ids of any two different requests sent over one
+    connection differ as long as fewer than 2^32 − 1 requests were sent between them — whatever the counter's state,
+    however many of them are still outstanding. -/
+theorem C10_ids_distinct_on_connection (s : Nat) (h1 : 1 ≤ s) (h2 : s ≤ 0xffffffff) (i j : Nat) (hij : i < j)
+    (hw : j < i + 0xffffffff) : nthId s i ≠ nthId s j := by
+  rw [nthId_eq_iter, nthId_eq_iter]
+  exact DV.Gens.iter_distinct 0xffffffff s h1 h2 i j hij hw
 
 /-- No configured / default peer list for the realm ⇒ not-routable, nothing is
     sent (the state is returned unchanged by the caller). -/
